@@ -358,6 +358,20 @@ def oracle_spacing(rng, n, R):
                             R.fail(f"C17:{fn}_loss:{mname}:axis-spacing",
                                    f"field varying along axis {ax} only: {fn}(spacing={spacing}) != {fn}(spacing=1) / {spacing[ax]}^{power}",
                                    axis=ax, **base)
+                # a separate spacing for each image of the batch: (N, D) and (N, 1) tensors with different rows
+                u2 = torch.cat([u, rnd_field(rng, size)], 0)
+                rows = [spacing, [h * 1.5 for h in reversed(spacing)]]
+                for sp2, label in ((torch.tensor(rows), "(N, D)"), (torch.tensor([[rows[0][0]], [rows[1][0]]]), "(N, 1)")):
+                    for fn in LOSSES:
+                        kw = dict(lam=1.0, mu=0.5)
+                        both = call(fn, u2, mode, sp2, "none", **kw)
+                        for n_ in range(2):
+                            sp_n = sp2[n_].tolist() if sp2.shape[1] > 1 else [float(sp2[n_, 0])] * D
+                            one = call(fn, u2[n_:n_ + 1], mode, sp_n, "none", **kw)
+                            if not close(both[n_:n_ + 1], one, 1e-9):
+                                R.fail(f"C17:{fn}_loss:{mname}:per-image-spacing",
+                                       f"spacing of shape {label}: image {n_} of the batch is not evaluated with its own spacing {sp_n}",
+                                       spacing_rows=sp2.tolist(), image=n_, **base)
                 # the default spacing is 2 / (n - 1) per axis
                 dflt = [2 / (n_ - 1) for n_ in size]
                 for fn in LOSSES:
